@@ -133,7 +133,9 @@ def _gen_op(rng):
                 "rel": rng.choice(["<=", ">=", "<", ">", "==", "!=", "!="]),
                 "value": rng.randint(-1, 4), "dst": rng.randrange(8),
                 "lst": rng.randrange(4), "check": rng.random() < 0.7,
-                "as_tuple": rng.random() < 0.15}
+                "as_tuple": rng.random() < 0.15,
+                # a one-shot iterator: served like the list, or refused
+                "as_iter": rng.random() < 0.1}
     if r < 0.84:
         return {"op": "mutate_formula", "dst": rng.randrange(8),
                 "how": rng.choice(["add_clause", "header", "header_new",
@@ -505,28 +507,41 @@ def execute(case, ctx):
             li = lidx[op["lst"] % 1]           # the literal list
             lits = pool.items[li][1]
             arg = tuple(lits) if op["as_tuple"] else lits
+            one_shot = op.get("as_iter") and not op["as_tuple"]
+            if one_shot:
+                arg = iter(list(lits))
             target = {di}
             k = op["kind"]
             what = "constraint:%s%s" % (k, op["rel"] if k == "linear"
                                         else "")
             twin = None
-            if op["as_tuple"]:
+            if op["as_tuple"] or one_shot:
                 tw = call(copy.deepcopy, F)
                 if tw[0] == "ok":
                     twin = (tw[1], None)
             r = call(_constraint_call, F, k, op, arg)
-            if op["as_tuple"] and twin is not None:
+            if (op["as_tuple"] or one_shot) and twin is not None:
                 # the container of the literals must not matter: the same
-                # call with a list on a copy of the formula
+                # call with a list on a copy of the formula (a one-shot
+                # iterator may be refused, it may not be served otherwise)
                 Fc, before_c = twin
                 rl = call(_constraint_call, Fc, k, op, list(lits))
-                if (r[0] == "ok") != (rl[0] == "ok") or (
+                if one_shot and r[0] == "exc" and isinstance(
+                        r[1], (ValueError, TypeError)) and \
+                        snap_formula(F)[:3] == snap_formula(twin[0])[:3] \
+                        and rl[0] == "exc":
+                    pass
+                elif one_shot and r[0] == "exc" and isinstance(
+                        r[1], (ValueError, TypeError)):
+                    ctx.probe("one-shot iterator of literals refused")
+                elif (r[0] == "ok") != (rl[0] == "ok") or (
                         r[0] == "ok" and snap_formula(F)[:3] !=
                         snap_formula(Fc)[:3]):
                     raise Violation(
                         "C19/container-of-the-literals-matters/%s" % k,
-                        "step %d %r: with a tuple %s, with a list %s" %
-                        (si, op, _short(r), _short(rl)))
+                        "step %d %r: with %s %s, with a list %s" %
+                        (si, op, "an iterator" if one_shot else "a tuple",
+                         _short(r), _short(rl)))
             if r[0] == "exc":
                 if isinstance(r[1], (ValueError, TypeError)):
                     ctx.note("constraint builder refused its arguments")
@@ -643,6 +658,11 @@ def _constraint_call(F, k, op, arg):
         return getattr(F, k)(arg, check=op["check"])
     if k == "add_clause":
         return F.add_clause(arg, check=op["check"])
+    if hasattr(arg, "__next__"):
+        # two clauses, each in an iterator of its own
+        both = list(arg)
+        return F.add_clauses_from([iter(both), iter(both)],
+                                  check=op["check"])
     return F.add_clauses_from([arg, arg], check=op["check"])
 
 
